@@ -34,7 +34,7 @@
 //   ubsan            ubsan|<File:line: runtime error: message, addresses removed>
 //   foreign/double   foreign-free|at=<library frames calling deallocate()>
 //   fault-free run   fault-free|<case>|unbalanced|outstanding=<n>, fault-free|<case>|foreign-free|at=..., fault-free|ubsan|<line>
-//   init case        every signature is prefixed with "init:"
+//   init case        every signature is prefixed with "init[<step in flight: initialize|golden|terminate|re-initialize>]:"
 // Symbolisation: llvm-symbolizer --inlines, one batch per process, against the file that is actually mapped (a library
 // rebuilt on disk during the run is read through /proc/<pid>/map_files).
 // Development aids (never set by checks/c19.py): C19_ONLY=case[,case] restricts a run; C19_SYMDEBUG=<prefix> keeps the
@@ -1281,7 +1281,8 @@ std::string catcherName(Symboliser& sy, const std::vector<void*>& bt)
 std::string signatureOf(Symboliser& sy, const RunResult& rr, bool initCase)
 {
     const std::string core = signatureCore(sy, rr);
-    return initCase ? "init:" + core : core;
+    // init case: the step in flight tells a failure of initialize() itself from one of the re-initialisation after it
+    return initCase ? "init[" + rr.step + "]:" + core : core;
 }
 
 std::string signatureCore(Symboliser& sy, const RunResult& rr)
@@ -1413,7 +1414,7 @@ struct Engine
     std::vector<Case>       cases;
     std::vector<std::string> sampleLines;
 
-    Engine(int s, int n) : globalIdx(0), shard(s), nshards(n) {}
+    Engine(int s, int n) : globalIdx(0), shard(s), nshards(n) { out.maxViols = 1000000; }
 
     void viol(const Case& cs, long long k, const RunResult& rr, const std::string& sig)
     {
@@ -1512,7 +1513,7 @@ struct Engine
             if (isViolation(p.rr.outcome)) addrs.insert(p.rr.catchBt.begin(), p.rr.catchBt.end());
         }
         sy.resolve(addrs);
-        size_t nSamples = 0;
+        std::set<std::string> seenClass;
         for (const Pending& p : pend)
         {
             const Case& c = cases[p.caseIdx];
@@ -1527,13 +1528,12 @@ struct Engine
             }
             if (rr.outstanding > 0 && !isViolation(rr.outcome)) out.count("left_blocks_to_the_manager");
             if (isViolation(rr.outcome)) viol(c, p.k, rr, signatureOf(sy, rr, c.init));
-            // samples: first of each shard, plus the first violating ones
-            if (nSamples < 2 || (isViolation(rr.outcome) && nSamples < 5))
-            {
+            // samples: first, middle and last run of this shard, plus the first run of every outcome class
+            const size_t idx = (size_t)(&p - &pend[0]);
+            const bool firstOfClass = seenClass.insert(rr.outcomeName()).second;
+            if (idx == 0 || idx == pend.size() / 2 || idx + 1 == pend.size() || firstOfClass)
                 sampleLines.push_back("(" + c.name + ", k=" + std::to_string(p.k) + "/" + std::to_string(c.N) + ", " + rr.outcomeName() +
                                       (rr.exc.empty() ? "" : " " + rr.exc) + ", throw site " + site + ")");
-                ++nSamples;
-            }
         }
         if (sy.mismatches != 0) out.count("symboliser_mismatch", sy.mismatches);
         if (sy.replacedObjects != 0) out.count("library_replaced_on_disk_during_run", sy.replacedObjects);
